@@ -380,7 +380,7 @@ def names_check(chk, stats):
     from psyclone.psyir.transformations import PSyDataTrans
     from psyclone.psyGen import Kern
     old_api = Config.get().api
-    saved = PSyDataTrans._used_kernel_names
+    saved = getattr(PSyDataTrans, "_used_kernel_names", None)
     try:
         from psyclone.tests.utilities import get_invoke
         invokes = []
@@ -396,7 +396,8 @@ def names_check(chk, stats):
             return None
         rng = chk.rng
         for _ in range(60 if chk.tier == "quick" else 400):
-            PSyDataTrans._used_kernel_names = {}
+            if saved is not None:
+                PSyDataTrans._used_kernel_names = {}
             ids = G.Ids()
             reqs, got = [], []
             for _ in range(rng.randint(2, 9)):
@@ -429,7 +430,8 @@ def names_check(chk, stats):
             if not agreed:
                 chk.correspondence_broken("get_unique_region_name differs from C28.uniqueNames", reqs, exp, got)
     finally:
-        PSyDataTrans._used_kernel_names = saved
+        if saved is not None:
+            PSyDataTrans._used_kernel_names = saved
         Config.get()._api = old_api
     return None
 
@@ -515,7 +517,7 @@ def gencode_check(chk, stats):
     from psyclone.psyir.nodes import PSyDataNode
     from psyclone.psyGen import Kern
     old_api = Config.get().api
-    saved = PSyDataTrans._used_kernel_names
+    saved = getattr(PSyDataTrans, "_used_kernel_names", None)
     files = ["3.1_multi_functions_multi_invokes.f90", "4.5_multikernel_invokes.f90", "1.2_multi_invoke.f90",
              "4_multikernel_invokes.f90"]
     rng = chk.rng
@@ -528,7 +530,8 @@ def gencode_check(chk, stats):
                 psy, _ = get_invoke(rng.choice(files), "lfric", idx=0, dist_mem=False)
             except Exception:  # pylint: disable=broad-except
                 continue
-            PSyDataTrans._used_kernel_names = {}
+            if saved is not None:
+                PSyDataTrans._used_kernel_names = {}
             ids = G.Ids()
             reqs = []          # requests to get_unique_region_name, in call order
             extract_nodes = []
@@ -613,7 +616,8 @@ def gencode_check(chk, stats):
                 chk.correspondence_broken("gen_code region names differ from C28.genCodeNames", psy.name, exp, got)
         stats["gencode_modules"] = done
     finally:
-        PSyDataTrans._used_kernel_names = saved
+        if saved is not None:
+            PSyDataTrans._used_kernel_names = saved
         Config.get()._api = old_api
     return None
 
@@ -626,9 +630,10 @@ def gencode_witness(w, quiet=True):
     from psyclone.psyir.transformations import PSyDataTrans
     from psyclone.tests.utilities import get_invoke
     from psyclone.domain.lfric.transformations import LFRicExtractTrans
-    old_api, saved = Config.get().api, PSyDataTrans._used_kernel_names
+    old_api, saved = Config.get().api, getattr(PSyDataTrans, "_used_kernel_names", None)
     try:
-        PSyDataTrans._used_kernel_names = {}
+        if saved is not None:
+            PSyDataTrans._used_kernel_names = {}
         psy, _ = get_invoke(w["file"], "lfric", idx=0, dist_mem=False)
         with contextlib.redirect_stdout(io.StringIO()), contextlib.redirect_stderr(io.StringIO()):
             for tname, k, i, j in w["steps"]:
@@ -641,7 +646,8 @@ def gencode_witness(w, quiet=True):
                   "\nexpected: pairwise distinct")
         return len(set(got)) != len(got)
     finally:
-        PSyDataTrans._used_kernel_names = saved
+        if saved is not None:
+            PSyDataTrans._used_kernel_names = saved
         Config.get()._api = old_api
 
 
